@@ -48,7 +48,15 @@ def gen(rng, knobs):
             h.ops.append([rng.choice(["sub", "query"]), [f]])
         elif c < 0.97:
             fs = [tight(rng, evs, histgen.wellformed_filter(rng, evs)) for _ in range(rng.randint(2, 5))]
-            h.ops.append(["sub", fs])
+            if rng.random() < 0.3:
+                # the same conditions twice with different limits: each filter keeps its own limit
+                g = dict(rng.choice(fs))
+                g.pop("limit", None)
+                small = dict(g, limit=rng.choice([0, 1, 2]))
+                fs = [small, g] if rng.random() < 0.7 else [g, small]
+                if rng.random() < 0.5:
+                    fs.append(histgen.wellformed_filter(rng, evs))
+            h.ops.append([rng.choice(["sub", "sub", "query"]), fs])
         else:
             h.ops.append(["sub", [rng.choice([{}, {"limit": 100}])]])
     return {"backend": backend, "ops": h.ops}
